@@ -219,6 +219,14 @@ class TocDevice(sd.Device):
                 self._deliver(link, pk, 'dup')
         for h in due:
             self._deliver(link, h[1], 'late')
+        if 'fail' in acts:
+            # the link dies while the library waits for this reply (reported by a driver thread)
+            self._fail_driver(link)
+
+    def set_tables(self, log_entries, param_entries, log_crc, param_crc):
+        """the device was reflashed between two connections: other tables, other checksums"""
+        self.services[sv.PORT_LOG].table = sv.TocTable(service_entries(log_entries), log_crc)
+        self.services[sv.PORT_PARAM].table = sv.TocTable(service_entries(param_entries), param_crc)
 
     # ---- manual mode (called by the harness between scheduler runs)
     def dev_reply(self):
